@@ -9,7 +9,7 @@ ID = 'C03'
 LEAN_MODULE = 'PncProofs.C03'
 LEAN_FILE = 'PncProofs/C03.lean'
 NAMESPACE = 'Props.C03'
-LEAN_CONE = ['PncModel.Arr', 'PncModel.File', 'PncProofs.ArrLemmas', 'PncProofs.FiberLemmas', 'PncProofs.C03']
+LEAN_CONE = ['PncModel.Arr', 'PncModel.NsStep', 'PncModel.Generated.NamespaceOrder', 'PncModel.File', 'PncProofs.ArrLemmas', 'PncProofs.FiberLemmas', 'PncProofs.C03']
 LEMMA_FILES = ['PncProofs/FiberLemmas.lean']
 REQUIRED_THEOREMS = ['apply_fiberwise', 'fn_uniform', 'apply_shape', 'reducers_exclude_masked', 'untouched']
 RULE = ('[dict form] whole-fibre callables also in the documented dictionary form func1d + keyword arguments; random files (as C02; float64 and int32 variables, masked and unmasked, coordinate variables) x 1-3 '
